@@ -48,7 +48,7 @@ func genC11Hammer(seed uint64, r *rng) *Scenario {
 			ins[i] = InputSpec{Unit: unit, Rep: 1200 + r.n(2500), Suf: []string{"c", "d", "", "!"}[r.n(4)]}
 		}
 	}
-	nrep := 1 + r.n(3)
+	nrep := 1 + r.n(5) // more strings than cache entries (1-3) in most runs: evictions while others look up
 	off := r.n(len(repls))
 	if r.chance(1, 3) {
 		off = replSpecial[r.n(len(replSpecial))] // one shared parse of a string with $` $' $_ $+, different inputs at once
@@ -62,6 +62,9 @@ func genC11Hammer(seed uint64, r *rng) *Scenario {
 	for c := 0; c < ncl; c++ {
 		cl := Client{Cost: int64(100 + r.n(400))}
 		nops := 1 + r.n(4)
+		if kinds[0] == OpReplace && r.chance(1, 2) {
+			nops = 3 + r.n(6) // a longer burst of Replace calls: the cache cycles through hit, miss and eviction
+		}
 		if longVsMany && c > 0 {
 			nops = 8 + r.n(7)
 		} else if longVsMany {
